@@ -105,3 +105,154 @@ fn vk_c17_apply_move_list() {
     }
     std::mem::forget(v);
 }
+
+// ---------------------------------------------------------------------------------------------------------------
+// C17.position.rebuilt_from_scratch: the WHOLE `position` arm of Uci::execute (verbatim) on a ghost Uci / Game whose
+// values carry their provenance: where the game value came from (the previous command's game, the start position, this
+// command's FEN) and which moves were made on it.  Whatever the engine held before, after the command it holds a game
+// created in THIS command from the named origin with exactly the listed moves applied -- nothing of the previous game.
+// ---------------------------------------------------------------------------------------------------------------
+pub mod arm {
+    use crate::chess::moves::Move;
+    use crate::chess::piece::PromotionPieceKind;
+    use crate::chess::player::Player;
+    use crate::chess::square::Square;
+    use crate::engine::uci::commands;
+    use crate::engine::uci::UciMove;
+
+    pub const N: usize = 3;
+    #[derive(Clone, Copy, PartialEq, Eq, Debug)]
+    pub enum Origin {
+        Previous,
+        StartPos,
+        Fen,
+    }
+    pub static mut ANSWER: [Option<Move>; N] = [None; N];
+    pub static mut ASKED: [Option<(u8, u8, Option<PromotionPieceKind>)>; N] = [None; N];
+    pub static mut ASK_N: usize = 0;
+    pub static mut FEN_FAILS: bool = false;
+
+    /// one entry of the game's public move history (the real History has more fields; `mv` is the one a `position`
+    /// handler could plausibly look at)
+    #[derive(Clone)]
+    pub struct History {
+        pub mv: Option<Move>,
+    }
+    #[derive(Clone)]
+    pub struct Game {
+        pub player: Player,
+        pub history: Vec<History>,
+        /// ghost provenance
+        pub origin: Origin,
+        pub made: [Option<Move>; N],
+        pub made_n: usize,
+    }
+    pub struct GhostList;
+    impl GhostList {
+        pub fn expect_matching(&self, src: Square, dst: Square, promotion: Option<PromotionPieceKind>) -> Move {
+            unsafe {
+                assert!(ASK_N < N);
+                ASKED[ASK_N] = Some((src.idx(), dst.idx(), promotion));
+                let (s, d): (u8, u8) = (kani::any(), kani::any());
+                kani::assume(s < 64 && d < 64 && s != d);
+                let m = Move::quiet(Square::from_index(s), Square::from_index(d));
+                ANSWER[ASK_N] = Some(m);
+                ASK_N += 1;
+                m
+            }
+        }
+    }
+    impl Game {
+        pub fn new() -> Self {
+            Game { player: Player::White, history: Vec::new(), origin: Origin::StartPos, made: [None; N], made_n: 0 }
+        }
+        pub fn from_fen(_fen: &str) -> Result<Self, String> {
+            if unsafe { FEN_FAILS } {
+                return Err(String::new());
+            }
+            Ok(Game { player: if kani::any() { Player::White } else { Player::Black }, history: Vec::new(), origin: Origin::Fen, made: [None; N], made_n: 0 })
+        }
+        pub fn moves(&self) -> GhostList {
+            GhostList
+        }
+        pub fn make_move(&mut self, m: Move) {
+            assert!(self.made_n < N);
+            self.made[self.made_n] = Some(m);
+            self.made_n += 1;
+            self.history.push(History { mv: Some(m) });
+            self.player = self.player.other();
+        }
+    }
+    pub struct Uci {
+        pub game: Game,
+    }
+    impl Uci {
+        //@@ closure: engine/uci/mod.rs :: impl Uci / fn execute :: UciCommand::Position { position, moves } => => pub fn position_arm(&mut self, position: &commands::Position, moves: &Vec<UciMove>) -> Result<(), String> ;; Ok(())
+    }
+}
+
+//@ obligation: C17.position.rebuilt_from_scratch
+//@ domain: bounded(move list of <= 3 moves; previous game with <= 2 moves of history)
+//@ functions: engine/uci/mod.rs::Uci::execute
+//@ timeout: 1200
+//@ mem_gb: 8
+//@ note: the whole `position` arm, for startpos or a FEN (accepted or rejected), any list of up to 3 moves and ANY previously held game (from startpos or a FEN, with any moves already played -- including a history that is a prefix of the new list): afterwards the engine holds a game created by THIS command from the origin it names, on which exactly the looked-up moves were made in order; when the FEN is rejected the previously held game is untouched
+//@ assumes: callee contracts C17.expect_matching, C02.make_undo.*, Game::new / from_fen (C06); Vec iteration order
+#[kani::proof]
+#[kani::unwind(6)]
+fn vk_c17_position_rebuilt_from_scratch() {
+    use arm::*;
+    // the previously held game: arbitrary provenance marker `Previous`, up to 2 moves of history
+    let hn: usize = kani::any();
+    kani::assume(hn <= 2);
+    let mut prev = Game { player: Player::White, history: Vec::new(), origin: Origin::Previous, made: [None; arm::N], made_n: 0 };
+    let n: usize = kani::any();
+    kani::assume(n <= arm::N);
+    let mut v: Vec<UciMove> = Vec::new();
+    let mut want = [None; arm::N];
+    let mut i = 0;
+    while i < arm::N {
+        if i < n {
+            let (s, d): (u8, u8) = (kani::any(), kani::any());
+            kani::assume(s < 64 && d < 64 && s != d);
+            v.push(UciMove { src: Square::from_index(s), dst: Square::from_index(d), promotion: None });
+            want[i] = Some((s, d, None));
+            // the previous game's history may coincide with a prefix of the new list (or not)
+            if i < hn {
+                let m = if kani::any() { Move::quiet(Square::from_index(s), Square::from_index(d)) } else { Move::quiet(Square::from_index(d), Square::from_index(s)) };
+                prev.history.push(History { mv: Some(m) });
+            }
+        }
+        i += 1;
+    }
+    let from_start: bool = kani::any();
+    let position = if from_start { crate::engine::uci::commands::Position::StartPos } else { crate::engine::uci::commands::Position::Fen(String::new()) };
+    unsafe {
+        arm::ASK_N = 0;
+        arm::FEN_FAILS = kani::any();
+    }
+    let mut uci = Uci { game: prev };
+    let r = uci.position_arm(&position, &v);
+    let fails = !from_start && unsafe { arm::FEN_FAILS };
+    kani::cover!(r.is_ok() && n == arm::N && hn == 2);
+    kani::cover!(fails);
+    if fails {
+        assert!(r.is_err());
+        assert!(uci.game.origin == Origin::Previous && uci.game.made_n == 0);
+    } else {
+        assert!(r.is_ok());
+        assert!(uci.game.origin == if from_start { Origin::StartPos } else { Origin::Fen }, "the game held after `position` is built from the origin the command names, not from the previous game");
+        assert!(uci.game.made_n == n && unsafe { arm::ASK_N } == n);
+        let mut i = 0;
+        while i < arm::N {
+            if i < n {
+                assert!(unsafe { arm::ASKED[i] } == want[i]);
+                assert!(uci.game.made[i] == unsafe { arm::ANSWER[i] });
+            }
+            i += 1;
+        }
+    }
+    std::mem::forget(v);
+    std::mem::forget(uci);
+    std::mem::forget(position);
+}
